@@ -578,6 +578,8 @@ def gen_opt_workload(rng, opts=None):
                 k = rng.randrange(info.shape[0])
                 d = np.ones(info.shape[0])
                 d[k] = 0.0
+                if rng.random() < 0.4:
+                    d[:] = 0.0  # a measurement the user switched off altogether
                 e["information"] = np.diag(d) * float(10.0 ** rng.uniform(-1, 2))
                 meta["rank_deficient_information"] = True
     if o["asym_information"]:
